@@ -219,8 +219,23 @@ def line_atomicity(ctx):
         ctx.analysed(sr)
         sends = [c for c in calls_in(sr.node) if call_attr(c) in ('sendall', 'send')]
         if not sends:
-            ctx.undecided(f'{sr.qualname}:send inside send_lock', sr.node, 'no sendall/send call recognised', sr)
+            from sa.lib import deep_calls
+            deep = deep_calls(m, sr, lambda c: call_attr(c) in ('sendall', 'send'))
+            if deep:
+                ctx.undecided(f'{sr.qualname}:send inside send_lock', sr.node, 'the send call lives in a helper method', sr)
+            else:
+                ctx.bad(f'{sr.qualname}:send inside send_lock', sr.node, 'send_reply never hands the encoded line to the socket (no sendall / send call): '
+                        'no request gets its reply', sr)
             continue
+        cfgs = CFG(sr.node, m, sr.module)
+        for t in cfgs.nodes:
+            if t.kind == 'test' and src(t.ast).replace('not ', '') == 'self.running':
+                neg = src(t.ast).startswith('not ')
+                sids = {i for c in sends for i in cfgs.node_of(c)}
+                side = 'F' if neg else 'T'
+                ok = sids <= cfgs.reach([t.id], labels={side}, avoid=[t.id]) and not (sids & cfgs.reach([t.id], labels={'T' if side == 'F' else 'F'}, avoid=[t.id]))
+                ctx.check(ok, f'{sr.qualname}:sends while the connection is running', t.ast, 'the send lies on the running side',
+                          f'`{src(t.ast)}`: the reply is sent only when the connection is NOT running - no request gets its reply', sr)
         for c in sends:
             ctx.check(in_lock(c, 'send_lock'), f'{sr.qualname}:send inside send_lock', c, 'inside `with self.send_lock`',
                       'the socket send is outside the send_lock region: an asynchronous update can split another line', sr)
@@ -501,3 +516,90 @@ def reply_text_is_encodable(ctx):
         n += json_text_is_encodable(ctx, f, 'frame encoder')
     if not n:
         raise AnchorMissing('json.dumps in encode_msg_frame not found')
+
+
+
+@rule('C07.R5c', min_instances=8)
+def every_handler_returns_its_reply(ctx):
+    """every request handler of the dispatcher (handle_<action> for the actions of REQUEST2REPLY, handle__ident) and
+    handle_request itself return a reply triple on EVERY normal exit - a handler that falls off its end returns None, the
+    interface logs 'empty result' and the request line stays unanswered"""
+    m = ctx.m
+    table = _reply_table(m)
+    names = {f'handle_{a}' for a in table} | {'handle__ident', 'handle_request'}
+    ci = m.cls(D) if 'D' in globals() else m.cls('frappy.protocol.dispatcher.Dispatcher')
+    for name in sorted(names):
+        f = ci.methods.get(name)
+        if f is None:
+            continue
+        if name == 'handle_help':
+            continue      # never reached (C07.R2c)
+        ctx.analysed(f)
+        cfg = CFG(f.node, m, f.module)
+        bad = []
+        for a, lab in cfg.pred.get(cfg.exit, []):
+            st = cfg.nodes[a].ast
+            if lab == 'exc':
+                continue
+            v = st.value if isinstance(st, ast.Return) else None
+            good = v is not None and (isinstance(v, (ast.Tuple, ast.Call)) or (isinstance(v, ast.IfExp) and isinstance(v.body, ast.Tuple) and isinstance(v.orelse, ast.Tuple))
+                                      or isinstance(v, ast.Name))
+            if not good:
+                bad.append(st)
+        ctx.check(not bad, f'{f.qualname}:returns a reply on every normal exit', bad[0] if bad and bad[0] is not None else f.node,
+                  'all normal exits return a triple',
+                  f'{name} can return None (after `{src(bad[0]) if bad and bad[0] is not None else "its last statement"}`): the request gets no reply line', f)
+
+
+@rule('C07.R3c', min_instances=3)
+def deframer_and_loop_polarity(ctx):
+    """polarity of the three tests the one-reply-per-line argument rests on: get_msg returns (None, input) exactly when there is
+    no EOL in the buffer; the handler ingests exactly the receptions that brought data; the message loop is left exactly when
+    next_message() says there is no complete line"""
+    m = ctx.m
+    gm = m.func(f'{IFACE}.get_msg')
+    ctx.analysed(gm)
+    cfg = CFG(gm.node, m, gm.module)
+    p = gm.node.args.args[0].arg
+    for t in cfg.nodes:
+        if t.kind != 'test':
+            continue
+        for l, op, r in compare_ops(t.ast):
+            if l == 'EOL' and r == p and op in ('in', 'notin'):
+                none_side = 'T' if op == 'notin' else 'F'
+                nones = {i for n in body_walk(gm.node) if isinstance(n, ast.Return) and isinstance(n.value, ast.Tuple) and n.value.elts and
+                         isinstance(n.value.elts[0], ast.Constant) and n.value.elts[0].value is None for i in cfg.ids(n)}
+                splits = {i for n in body_walk(gm.node) if isinstance(n, ast.Return) and n.value is not None and 'split' in src(n.value) for i in cfg.ids(n)}
+                on = cfg.reach([t.id], labels={none_side}, avoid=[t.id])
+                off = cfg.reach([t.id], labels={'F' if none_side == 'T' else 'T'}, avoid=[t.id])
+                ctx.check(bool(nones) and nones <= on and bool(splits) and splits <= off and not (splits & on - off), f'{gm.qualname}:no EOL means no message', t.ast,
+                          '(None, input) without EOL, the split otherwise',
+                          f'`{src(t.ast)}`: the buffer is split when it holds no EOL (an incomplete line is handed on as a message) and complete lines are held back', gm)
+    h = _handle(m)
+    ctx.analysed(h)
+    cfgh = CFG(h.node, m, h.module)
+    ing = {i for c in calls_in(h.node) if call_attr(c) == 'ingest' for i in cfgh.node_of(c)}
+    if not ing:
+        ctx.bad(f'{h.qualname}:received data is ingested', h.node, 'handle() never calls ingest(): no request line ever reaches the de-framer', h)
+    loop = _inner_loop(h)
+    nm = {i for c in calls_in(loop) if call_attr(c) == 'next_message' for i in cfgh.node_of(c)}
+    for t in cfgh.nodes:
+        if t.kind != 'test':
+            continue
+        for l, op, r in compare_ops(t.ast):
+            if op in ('is', 'isnot') and r == 'None':
+                none_side = 'T' if op == 'is' else 'F'
+                other = 'F' if none_side == 'T' else 'T'
+                defs = [v for v, st, how in local_assigns(h.node, l) if v is not None] if l.isidentifier() else []
+                if any(isinstance(v, ast.Call) and call_attr(v) == 'receive' for v in defs) and ing:
+                    ok = ing <= cfgh.reach([t.id], labels={other}, avoid=[t.id]) and not (ing & cfgh.reach([t.id], labels={none_side}, avoid=[t.id] + list(cfgh.ids(loop.test))))
+                    ctx.check(ok, f'{h.qualname}:data is ingested when there is data', t.ast, 'ingest on the not-None side',
+                              f'`{src(t.ast)}`: ingest() runs only when receive() returned nothing', h)
+                if any(isinstance(v, ast.Call) and call_attr(v) == 'next_message' for v in defs):
+                    brk = {i for n in walk_local(loop) if isinstance(n, ast.Break) for i in cfgh.ids(n)}
+                    on = cfgh.reach([t.id], labels={none_side}, avoid=[t.id])
+                    sends = {i for c in calls_in(loop) if call_attr(c) == 'send_reply' for i in cfgh.node_of(c)}
+                    reach_other = cfgh.reach([t.id], labels={other}, avoid=[t.id] + list(nm))
+                    ok = bool(brk & on) and bool(sends & reach_other)
+                    ctx.check(ok, f'{h.qualname}:the message loop ends when there is no complete line', t.ast, 'break on the None side, dispatch on the other',
+                              f'`{src(t.ast)}`: the loop is left when a message IS there (it is dropped) and goes on to dispatch None', h)
